@@ -21,7 +21,7 @@ for P in $CHECKS; do
   echo "$LINE"
   RES="$RES $P: $(echo "$LINE" | sed 's/.*undecided=\([0-9]*\) violations=\([0-9]*\).*exit=\([0-9]*\).*/undecided=\1 violations=\2 exit=\3/')"
 done
-D="$HERE/benign/$PROP"; N=1; while [ -e "$D" ]; do N=$((N+1)); D="$HERE/benign/$PROP-$N"; done
+B="${DEST:-benign}"; D="$HERE/$B/$PROP"; N=1; while [ -e "$D" ]; do N=$((N+1)); D="$HERE/$B/$PROP-$N"; done
 mkdir -p "$D"; cp "$SRC/patch.diff" "$D/patch.diff"
 /venv/bin/python - "$D" "$PROP" "$SUITE" "$RES" <<'PY'
 import json, sys
